@@ -10,5 +10,6 @@ CONSTANTS
   MaxRead = 2
   MaxStall = 2
   MaxSweep = 2
+  MaxLeave = 0
 INVARIANTS WholeUnits NoBlocking QueueBound
 VIEW FineView
